@@ -359,3 +359,196 @@ db_harness!(#[kani::unwind(5)] u30_get_size_is_the_length_of_what_get_returns, {
 	}
 	kani::cover!(mode == 0 && hit, "reached");
 });
+
+// ================================================================== U31: table data is flushed before any log file is reclaimed
+// DbInner::{clean_logs, clean_all_logs} with Column::flush, Log::num_dirty_logs and Log::clean_logs replaced by contracts.
+pub(crate) static mut FL_N: usize = 0;
+pub(crate) static mut FL_FAIL: bool = false;
+pub(crate) static mut DIRTY: usize = 0;
+pub(crate) static mut CL_N: usize = 0;
+pub(crate) static mut CL_ARG: usize = 0;
+pub(crate) static mut CL_FLUSHED_BEFORE: usize = 0;
+pub(crate) fn stub_column_flush(_c: &Column) -> Result<()> {
+	unsafe {
+		if FL_FAIL {
+			return Err(Error::Corruption(String::new()))
+		}
+		FL_N += 1;
+		Ok(())
+	}
+}
+pub(crate) fn stub_num_dirty_logs(_l: &Log) -> usize {
+	unsafe { DIRTY }
+}
+pub(crate) fn stub_log_clean_logs(_l: &Log, max_count: usize) -> Result<bool> {
+	unsafe {
+		CL_N += 1;
+		CL_ARG = max_count;
+		CL_FLUSHED_BEFORE = FL_N;
+		Ok(max_count < DIRTY)
+	}
+}
+fn u31_reset() {
+	unsafe {
+		FL_N = 0;
+		FL_FAIL = kani::any();
+		DIRTY = kani::any();
+		CL_N = 0;
+		CL_ARG = 0;
+		CL_FLUSHED_BEFORE = 0;
+	}
+}
+db_harness!(#[kani::unwind(5)]
+	#[kani::stub(Column::flush, stub_column_flush)]
+	#[kani::stub(crate::log::Log::num_dirty_logs, stub_num_dirty_logs)]
+	#[kani::stub(crate::log::Log::clean_logs, stub_log_clean_logs)]
+	u31_data_flushed_before_logs_are_reclaimed, {
+	let mut db = mk_db_one_hash_column();
+	let sync_data: bool = kani::any();
+	db.options.sync_data = sync_data;
+	u31_reset();
+	let r = ok(db.clean_logs());
+	let (dirty, fail) = unsafe { (DIRTY, FL_FAIL) };
+	let keep = if sync_data { 0 } else { KEEP_LOGS };
+	if unsafe { CL_N } > 0 {
+		assert!(unsafe { CL_N } == 1, "U31.clean_logs.log_reclaimed_once");
+		if sync_data {
+			// every column's tables were flushed (msync / fsync) before the first log file is truncated or reused
+			assert!(unsafe { CL_FLUSHED_BEFORE } == 1, "U31.clean_logs.every_column_flushed_before_any_log_is_reclaimed");
+		}
+		assert!(dirty > keep && unsafe { CL_ARG } == dirty - keep, "U31.clean_logs.reclaims_only_the_dirty_logs_beyond_the_kept_ones");
+	}
+	if sync_data && fail && dirty > keep {
+		assert!(r.is_none() && unsafe { CL_N } == 0, "U31.clean_logs.a_failed_flush_reclaims_nothing");
+	}
+	if dirty <= keep {
+		assert!(unsafe { CL_N } == 0, "U31.clean_logs.nothing_reclaimed_while_within_the_kept_logs");
+	}
+	kani::cover!(unsafe { CL_N } == 1 && sync_data, "reached");
+});
+db_harness!(#[kani::unwind(5)]
+	#[kani::stub(Column::flush, stub_column_flush)]
+	#[kani::stub(crate::log::Log::num_dirty_logs, stub_num_dirty_logs)]
+	#[kani::stub(crate::log::Log::clean_logs, stub_log_clean_logs)]
+	u31_clean_all_logs_flushes_first, {
+	let db = mk_db_one_hash_column();
+	u31_reset();
+	let r = ok(db.clean_all_logs());
+	let (dirty, fail) = unsafe { (DIRTY, FL_FAIL) };
+	if fail {
+		assert!(r.is_none() && unsafe { CL_N } == 0, "U31.clean_all_logs.a_failed_flush_reclaims_nothing");
+	} else {
+		assert!(r.is_some() && unsafe { CL_N } == 1 && unsafe { CL_FLUSHED_BEFORE } == 1, "U31.clean_all_logs.every_column_flushed_before_any_log_is_reclaimed");
+		assert!(unsafe { CL_ARG } == dirty, "U31.clean_all_logs.reclaims_every_dirty_log");
+	}
+	kani::cover!(!fail, "reached");
+});
+
+// ================================================================== U33: shutdown drains every stage of the pipeline in dependency order
+// DbInner::kill_logs with the stage functions replaced by their contracts over ghost counters:
+//   Q queued commits --process_commits--> A records in the appending log --flush_logs--> R records readable --enact_logs--> applied
+pub(crate) static mut SQ: u8 = 0;
+pub(crate) static mut SA: u8 = 0;
+pub(crate) static mut SR: u8 = 0;
+pub(crate) static mut SE: u8 = 0;
+pub(crate) static mut CLEAN_ALL_N: usize = 0;
+pub(crate) static mut CLEAN_ALL_WITH_PENDING: bool = false;
+pub(crate) static mut KILL_N: usize = 0;
+pub(crate) static mut KILL_BEFORE_CLEAN: bool = false;
+pub(crate) static mut BGERR_CLEAN_N: usize = 0;
+pub(crate) fn stub_process_commits(_d: &DbInner, _db: &Arc<DbInner>) -> Result<bool> {
+	unsafe {
+		if SQ > 0 {
+			SQ -= 1;
+			SA += 1;
+			Ok(true)
+		} else {
+			Ok(false)
+		}
+	}
+}
+pub(crate) fn stub_flush_logs(_d: &DbInner, _min: u64) -> Result<bool> {
+	unsafe {
+		if SA > 0 {
+			SR += SA;
+			SA = 0;
+			Ok(true)
+		} else {
+			Ok(false)
+		}
+	}
+}
+pub(crate) fn stub_enact_logs(_d: &DbInner, _validation: bool) -> Result<bool> {
+	unsafe {
+		if SR > 0 {
+			SR -= 1;
+			SE += 1;
+			Ok(true)
+		} else {
+			Ok(false)
+		}
+	}
+}
+pub(crate) fn stub_clean_all_logs(_d: &DbInner) -> Result<()> {
+	unsafe {
+		CLEAN_ALL_N += 1;
+		if SQ > 0 || SA > 0 || SR > 0 {
+			CLEAN_ALL_WITH_PENDING = true;
+		}
+		Ok(())
+	}
+}
+pub(crate) fn stub_log_kill_logs(_l: &Log) -> Result<()> {
+	unsafe {
+		KILL_N += 1;
+		if CLEAN_ALL_N == 0 {
+			KILL_BEFORE_CLEAN = true;
+		}
+		Ok(())
+	}
+}
+pub(crate) fn stub_log_clean_logs_bgerr(_l: &Log, _max: usize) -> Result<bool> {
+	unsafe {
+		BGERR_CLEAN_N += 1;
+		Ok(false)
+	}
+}
+db_harness!(#[kani::unwind(9)]
+	#[kani::stub(DbInner::process_commits, stub_process_commits)]
+	#[kani::stub(DbInner::flush_logs, stub_flush_logs)]
+	#[kani::stub(DbInner::enact_logs, stub_enact_logs)]
+	#[kani::stub(DbInner::clean_all_logs, stub_clean_all_logs)]
+	#[kani::stub(crate::log::Log::kill_logs, stub_log_kill_logs)]
+	#[kani::stub(crate::log::Log::num_dirty_logs, stub_num_dirty_logs)]
+	#[kani::stub(crate::log::Log::clean_logs, stub_log_clean_logs_bgerr)]
+	u33_shutdown_drains_every_stage_in_order, {
+	let db = mk_db_one_hash_column();
+	let (q, a, r0): (u8, u8, u8) = (kani::any(), kani::any(), kani::any());
+	kani::assume(q <= 2 && a <= 2 && r0 <= 2);
+	unsafe {
+		SQ = q;
+		SA = a;
+		SR = r0;
+		SE = 0;
+		CLEAN_ALL_N = 0;
+		CLEAN_ALL_WITH_PENDING = false;
+		KILL_N = 0;
+		KILL_BEFORE_CLEAN = false;
+		BGERR_CLEAN_N = 0;
+		DIRTY = 0;
+	}
+	// kill_logs takes the Arc only to hand it to process_commits (stubbed): any Arc<DbInner> will do
+	let arc: &'static Arc<DbInner> = Box::leak(Box::new(Arc::new(std::mem::ManuallyDrop::into_inner(mk_db_one_hash_column_plain()))));
+	let r = ok(db.kill_logs(arc));
+	assert!(r.is_some(), "U33.kill_logs.no_error");
+	// every accepted commit -- queued, logged but unflushed, flushed but unapplied -- has been applied to the tables
+	assert!(unsafe { SE } == q + a + r0, "U33.kill_logs.every_accepted_commit_is_applied");
+	assert!(unsafe { SQ == 0 && SA == 0 && SR == 0 }, "U33.kill_logs.no_stage_left_with_work");
+	// and only then are data flushed / logs reclaimed, and only then are the log files removed
+	assert!(unsafe { CLEAN_ALL_N } == 1 && !unsafe { CLEAN_ALL_WITH_PENDING }, "U33.kill_logs.logs_reclaimed_only_after_everything_is_applied");
+	assert!(unsafe { KILL_N } == 1 && !unsafe { KILL_BEFORE_CLEAN }, "U33.kill_logs.log_files_removed_only_after_the_final_flush");
+	kani::cover!(q == 2 && a == 1 && r0 == 2, "reached");
+});
+fn mk_db_one_hash_column_plain() -> std::mem::ManuallyDrop<DbInner> {
+	mk_db_one_hash_column()
+}
